@@ -62,8 +62,11 @@ def run_group(ctx, prop, lean=True, other_tiers=True):
         fname = '{}:{}'.format(rel, qual)
         try:
             obs = []
+            no_exit = []
             for label, cv in pyrun.variants_of(c):
                 obs += eng.verify(rel, qual, contract=cv, label=label)
+                if eng.exits['normal'] == 0 and not cv.get('never_returns'):
+                    no_exit.append(label)
         except engine.Unsupported as e:
             p['unsupported'].append({'function': fname, 'reason': str(e)})
             print('PROOF-DEGRADED {}: function left the supported subset ({}); decided by the bounded tier only'.format(fname, e))
@@ -77,8 +80,8 @@ def run_group(ctx, prop, lean=True, other_tiers=True):
                 or ob.kind in ('inv-init', 'inv-pres', 'decreases')]
         if not obs:
             raise RuntimeError('vacuity guard: zero obligations generated for ' + fname)
-        if eng.exits['normal'] == 0 and not c.get('never_returns'):
-            raise RuntimeError('vacuity guard: no feasible normal exit of {} under its precondition'.format(fname))
+        if no_exit:
+            raise RuntimeError('vacuity guard: no feasible normal exit of {} (variant {}) under its precondition'.format(fname, no_exit))
         p['vacuity_guards'] += 1
         per_func[fname] = (c, mine, eng.exits)
         all_obs.extend(mine)
